@@ -5,6 +5,7 @@ import (
 	"time"
 
 	"verif/internal/explore"
+	"verif/internal/gen"
 	"verif/internal/world"
 )
 
@@ -102,4 +103,60 @@ func c11Resume(rep *explore.Report, deadline time.Time) {
 	rep.Extra["resume_pause_resume_pairs_checked"] = pairs
 	rep.Extra["resume_paused_states_visited"] = pausedStates
 	rep.Extra["resume_bottom_sccs"] = len(g.Bottoms)
+}
+
+// c11ResumeWakeup: removing the pause annotation is a metadata-only edit; the
+// controller must still wake up for it, otherwise the set stays frozen although
+// sync() would resume it. Exercised on the real handlers and the real worker step.
+func c11ResumeWakeup(rep *explore.Report) {
+	w := world.New()
+	for _, pol := range []string{"OrderedReady", "Parallel"} {
+		sc := gen.Scenario{Spec: gen.Spec{Name: "web", Replicas: 2, Policy: pol, Strategy: gen.RU(0), Limit: 10, Template: 1, Paused: true}, Revs: []int{1}, Cur: 0,
+			Cells: []gen.Cell{gen.ReadyAt(0), gen.Absent, gen.Absent}}
+		st := sc.Build(w)
+		w.Lag = 0
+		w.Load(st)
+		if len(w.SetHandlers) != 1 {
+			rep.Violation("C11", "handler-registration", "no set event handler registered", nil)
+			return
+		}
+		q := &recQueue{}
+		w.Ctrl.VerifSetQueue(q)
+		paused := w.S.API.Sets["web"]
+		// while paused: a worker step does nothing
+		q.items = []interface{}{world.NS + "/web"}
+		w.FillCaches()
+		w.Begin(nil)
+		w.Ctrl.VerifProcessNextWorkItem()
+		if calls := w.End(); len(calls) > 0 {
+			rep.Violation("C11", "write-while-paused", fmt.Sprintf("%s: worker step on a paused set issued %d API calls", pol, len(calls)), nil)
+		}
+		// the user removes the annotation (nothing else changes)
+		if err := world.Apply(w.S, "pause off", 0); err != nil {
+			panic(world.HarnessError{Msg: err.Error()})
+		}
+		resumed := w.S.API.Sets["web"]
+		q.log, q.items = nil, nil
+		w.FillCaches()
+		w.SetHandlers[0].OnUpdate(paused, resumed)
+		rep.AddStates(1, 1)
+		if !keysOf(q.log)[world.NS+"/web"] {
+			rep.Violation("C11", "resume-not-noticed", fmt.Sprintf("%s: the update that removes the pause annotation does not enqueue the set: it stays frozen until some unrelated event arrives", pol), func() interface{} {
+				return map[string]interface{}{"kind": "c11-resume-wakeup", "policy": pol, "queue_log": q.log}
+			})
+			continue
+		}
+		w.Begin(nil)
+		w.Ctrl.VerifProcessNextWorkItem()
+		calls := w.End()
+		created := false
+		for _, c := range calls {
+			if c.Verb == "create" && c.Resource == "pods" {
+				created = true
+			}
+		}
+		if !created {
+			rep.Violation("C11", "resume-does-not-continue", fmt.Sprintf("%s: after the resume the worker step did not continue the pending scale-out", pol), nil)
+		}
+	}
 }
